@@ -115,6 +115,9 @@ def run(repo, rep):
     rule_zdiv_search_space(repo, rep, enc, dec)
     rep.clause("C07-k", "get_brick_weight: stride arithmetic on the caller's (possibly flipped, negative-stride) view stays signed or pointer-wide")
     rule_brick_index(repo, rep, enc)
+    rule_wrapper_strides(repo, rep, mod)
+    rep.clause("C07-r", "encode_section merges the weight and the zero-run slice boundaries with two independent cursors: each is advanced under its own test, neither in the else-branch of the other (a boundary shared by both lists advances both)")
+    rule_slice_cursors(repo, rep, enc)
     rep.clause("C07-l", "reorder: a source weight is fetched exactly for lanes inside the volume; every other lane is zero padding (guard evaluated on probe lanes)")
     rule_lane_guard(repo, rep, enc)
     rep.clause("C07-m", "typed allocations: sizeof's element type is the pointee type of the table it sizes")
@@ -630,6 +633,48 @@ def rule_brick_index(repo, rep, enc):
         raise AnalysisError("get_brick_weight: no use of the view's strides found")
     rep.check(not bad, "C07-k", site, f"stride arithmetic stays signed or pointer-wide ({len(uses)} stride reads, {n} locals)",
               "; ".join(bad) + ": a negative stride (flipped transpose-convolution view) wraps to about 2^32 elements: out-of-bounds read of the weight volume")
+
+
+def rule_slice_cursors(repo, rep, enc):
+    """(r) encode_section walks two sorted boundary lists (w_slice_pos, z_slice_pos) and cuts a slice at the smaller next boundary. When the
+    next boundaries coincide both cursors must move on, otherwise the next slice is empty (SLICELEN -1 in the stream). Structural form: every
+    `i_<x>_slice++` sits in the then-branch of an if that is not inside the else-branch of an if advancing the other cursor."""
+    site = f"{ENC}:encode_section"
+    body = enc.body("encode_section")
+
+    def incs(node):
+        return {enc.text(d).replace("+", "").strip() for d in enc.walk(node) if d.get("kind") == "UnaryOperator" and d.get("opcode") == "++" and "_slice" in enc.text(d)}
+
+    ifs = [d for d in enc.walk(body) if d.get("kind") == "IfStmt" and "slice_pos" in enc.text(d["inner"][0]) and "endpos" in enc.text(d["inner"][0])]
+    if len(ifs) < 2:
+        raise AnalysisError(f"encode_section: {len(ifs)} boundary tests found")
+    cursors = set()
+    for d in ifs:
+        then_inc = incs(d["inner"][1])
+        cursors |= then_inc
+        else_inc = incs(d["inner"][2]) if len(d["inner"]) > 2 else set()
+        other = else_inc - then_inc
+        rep.check(not other, "C07-r", site, f"`if ({enc.text(d['inner'][0]).strip()[:60]})` advances {sorted(then_inc)} and has no other cursor in its else-branch",
+                  f"{sorted(other)} is advanced only when {sorted(then_inc)} is not: when both lists have a boundary at the same position one cursor stays behind and the next slice is empty "
+                  "(SLICELEN -1: the decoder underruns)")
+    if len(cursors) < 2:
+        raise AnalysisError(f"encode_section: cursors {sorted(cursors)}")
+
+
+def rule_wrapper_strides(repo, rep, mod):
+    """(k, wrapper side) method_reorder_encode turns the byte strides of the caller's view into element strides. The quotient / remainder is
+    computed in the type clang gives the operator: int, a signed type, or a pointer-wide unsigned type (size_t: the low 32 bits of the wrapped
+    quotient are the signed result for a divisor of 2). A 32-bit unsigned operator type turns -6 into 2147483645."""
+    site = f"{MOD}:method_reorder_encode"
+    body = mod.body("method_reorder_encode")
+    narrow_unsigned = ("uint32_t", "unsigned int", "unsigned", "uint16_t", "uint8_t", "unsigned short", "unsigned char")
+    ops = [d for d in mod.walk(body) if d.get("kind") == "BinaryOperator" and d.get("opcode") in ("/", "%") and "stride" in mod.text(d)]
+    if len(ops) < 2:
+        raise AnalysisError(f"method_reorder_encode: {len(ops)} stride divisions found")
+    for d in ops:
+        qt = (d.get("type") or {}).get("qualType", "").strip()
+        rep.check(qt not in narrow_unsigned, "C07-k", site, f"`{mod.text(d).strip()[:60]}` is computed in a signed or pointer-wide type ({qt})",
+                  f"the operator's type is {qt}: a negative byte stride (np.flip view of a transpose-convolution kernel) becomes an element stride of about 2^31 - out-of-bounds read in get_brick_weight")
 
 
 def rule_lane_guard(repo, rep, enc):
